@@ -105,7 +105,7 @@ def classify_exc(e):
 def run_impl(x):
     res = {}
     for v in (True, False):
-        t0 = time.time()
+        t0 = time.process_time()
         try:
             t = torf.Torrent.read_stream(io.BytesIO(x), validate=v)
             out = ['ok']
@@ -122,7 +122,7 @@ def run_impl(x):
             res[v] = tuple(out)
         except Exception as e:  # noqa
             res[v] = ('err', classify_exc(e))
-        res[('t', v)] = time.time() - t0
+        res[('t', v)] = time.process_time() - t0
     return res
 
 
@@ -230,7 +230,7 @@ def run(ck, model_ok):
             if c[0] not in ('MagnetError', 'URLError'):
                 ck.fail('oracle', 'from_string-raises:' + ''.join(c), {'magnet': s}, 'MagnetError/URLError', repr(c), f'Magnet.from_string raised {c}')
     ck.notes += ['recursion-depth dependent outcomes (nesting between 300 and 1000) are compared by class only',
-                 'allocation behaviour of huge length prefixes is measured through wall time only']
+                 'allocation behaviour of huge length prefixes is measured through CPU time only (process_time: independent of machine load)']
 
 
 def replay(rp):
